@@ -3,6 +3,7 @@ package main
 import (
 	"fmt"
 	"go/token"
+	"go/types"
 	"regexp"
 	"sort"
 	"strings"
@@ -72,7 +73,21 @@ func c08R1R4(p *Prog, r *Report) {
 		r.Unk("C08.anchor", "edge finder call", p.Pos(fn.Pos()), "no call of the edge finder")
 		return
 	}
+	// the header of the innermost loop around the call (the call's own block in a bare for { },
+	// a separate test block in a conditioned loop)
 	header := call.Block()
+	for d := call.Block(); d != nil; d = d.Idom() {
+		back := false
+		for _, pr := range d.Preds {
+			if d.Dominates(pr) && (pr == call.Block() || BlockReaches(call.Block(), pr)) {
+				back = true
+			}
+		}
+		if back {
+			header = d
+			break
+		}
+	}
 	var phis []*ssa.Phi
 	for _, in := range header.Instrs {
 		if ph, ok := in.(*ssa.Phi); ok {
@@ -118,6 +133,26 @@ func c08R1R4(p *Prog, r *Report) {
 			// output accumulator: seeded empty, only appended to
 		default:
 			seed2, _ := seedOf(ph)
+			// a flag that only decides whether the loop goes on carries nothing from sample to sample
+			onlyControl := true
+			for _, ref := range *ph.Referrers() {
+				switch x := ref.(type) {
+				case *ssa.If:
+					if x.Block() != header {
+						onlyControl = false
+					}
+				case *ssa.DebugRef:
+				case *ssa.Phi:
+					if x != ph {
+						onlyControl = false
+					}
+				default:
+					onlyControl = false
+				}
+			}
+			if b, isB := ph.Type().Underlying().(*types.Basic); isB && b.Kind() == types.Bool && onlyControl {
+				continue
+			}
 			if c, ok := seed2.(*ssa.Const); ok {
 				r.Bad("C08.R1", "no per-call loop state besides the carried edges", p.Pos(fn.Pos()), "loop-carried local `"+name+"` is seeded with the constant "+c.String()+" on every call: the result depends on the block partition")
 			}
@@ -606,13 +641,14 @@ func c08R5(p *Prog, r *Report) {
 	}
 	body := hdr.Succs[0]
 	n := 0
-	Instrs(fn, func(in ssa.Instruction) {
-		ia, ok := in.(*ssa.IndexAddr)
-		if !ok || ia.X != ssa.Value(raw) {
+	// reads in the finder and in helpers it hands the sample slice to
+	InstrsDeep(fn, 2, func(d DeepInstr) {
+		ia, ok := d.In.(*ssa.IndexAddr)
+		if !ok || ArgForParam(d.Path, ia.X) != ssa.Value(raw) {
 			return
 		}
 		n++
-		inside := body.Dominates(ia.Block())
+		inside := body.Dominates(d.Top.Block())
 		r.Check(inside, "C08.R5", fmt.Sprintf("sample read #%d of the finder is inside the search window test", n), p.InstrPos(ia), "dominated by the true branch of index <= last",
 			"the samples are indexed outside the loop that tests the search index against the last searchable index: when the window is empty (fewer samples than the look-back after a reset or a length change) this read is out of range and panics block processing")
 	})
